@@ -3,9 +3,10 @@ C16 — model of the serving engine as a labelled transition system.  Core Lean 
 
 Anchors (forml/runtime/_service):
 * `__init__.py`  `Engine.apply`           : extract (descriptor, decode, select) → deal → respond
-* `dispatch.py`  `Wrapper._get_descriptor`: check / list / diff / update / test on a thread pool
+* `dispatch.py`  `Wrapper._get_descriptor`: check / list / diff / update / test on a thread pool, under `Wrapper._lock`
                  `Wrapper._dispatch`      : `descriptor.receive` (decode) then `descriptor.select`
                  `Dealer.__call__`        : one `prediction.Executor` per `asset.Instance` (cache)
+                 `Wrapper._pack`          : `descriptor.respond` (encode for the caller's `accept`) on a process pool
 * `prediction.py` `Executor.apply`        : `pending[index] = future; tasks.put(Task(index, entry)); index += 1`
                  `Pool.Worker.run`        : `tasks.get` → `runner.call(entry)` → `results.put(Result(id, …))`;
                                             `forml.AnyError` → failure result; other exception → failure result
@@ -16,9 +17,15 @@ Anchors (forml/runtime/_service):
   uninterpreted `Outcome.value inst payload` ("f inst payload").
 
 Everything is indexed by naturals: callers, applications, instances, task ids, workers.
-The flag `Config.locked` selects between the code as it exists (`false`: `_get_descriptor` unsynchronised)
-and the proposed repair `fixes/C16-descriptor-lock.diff` (`true`: the check/list/update/test block runs
-under one lock).
+The flag `Config.locked` selects between the code as it exists (`true`: the check/list/update/test block of
+`_get_descriptor` runs under `Wrapper._lock`, /repo commit 710a92e = `fixes/C16-descriptor-lock.diff`) and the
+code before that repair (`false`: unsynchronised; kept so that the defect C16-F1 stays a kernel-checked
+counterexample).
+
+Atomicity of the steps follows the code: everything `Engine.apply` does between two `await`s runs on the one
+event-loop thread and is one step (`submit` = `Dealer.__call__` + `Executor.apply`: cache lookup, `pending[index]`,
+`tasks.put`, `index += 1`); the thread pool (`desc`, `decodeFail`), the worker processes (`take`, `finish`), the
+executor thread (`deliver`) and the process pool of `_pack` (`respond`) interleave freely.
 -/
 namespace ForML.Serving
 
@@ -48,14 +55,17 @@ inductive Outcome where
   | error (e : Err)
   deriving DecidableEq, Repr
 
-/-- One request: target application, whether its content type has no decoder, and the entry it decodes to. -/
+/-- One request: target application, whether its content type has no decoder (`get_decoder` raises
+`Encoding.Unsupported` in `_dispatch`), whether none of its `accept` encodings has an encoder (`get_encoder` raises
+`Encoding.Unsupported` in `_pack`, i.e. only after the model has answered), and the entry it decodes to. -/
 structure CallerSpec where
   app : Nat
   badEncoding : Bool
+  badAccept : Bool
   entry : Entry
   deriving DecidableEq, Repr
 
-instance : Inhabited CallerSpec := ⟨⟨0, false, ⟨.ok, 0⟩⟩⟩
+instance : Inhabited CallerSpec := ⟨⟨0, false, false, ⟨.ok, 0⟩⟩⟩
 
 structure Config where
   /-- caller `c` is `callers[c]` -/
@@ -80,12 +90,22 @@ def runModel (inst : Nat) (e : Entry) : Outcome :=
   | .missingColumn => .error .missingFeatures
   | .fatal => .error .fatal
 
+/-- `Wrapper._pack` / `descriptor.respond`: the outcome encoded for caller `c`, or `Encoding.Unsupported`. -/
+def encode (cfg : Config) (c : Nat) (o : Outcome) : Outcome :=
+  if (spec cfg c).badAccept then .error .unsupported else o
+
+/-- what caller `c` finally gets for the result `o` its task produced: an exception is re-raised by
+`await self._dealer(...)`, a value goes through `respond` -/
+def finalOf (cfg : Config) (c : Nat) : Outcome → Outcome
+  | .value i p => encode cfg c (.value i p)
+  | .error e => .error e
+
 /-- The property's right-hand side: the outcome computed from the caller's own payload by the instance its
 application selected, or the platform error of its own request. -/
 def expected (cfg : Config) (c : Nat) : Outcome :=
   if (spec cfg c).app ∈ cfg.inventory then
     if (spec cfg c).badEncoding then .error .unsupported
-    else runModel (cfg.select (spec cfg c).app) (entryOf cfg c)
+    else finalOf cfg c (runModel (cfg.select (spec cfg c).app) (entryOf cfg c))
   else .error .missingApp
 
 structure Task where
@@ -120,6 +140,8 @@ inductive Phase where
   | d4 (updates : List Nat)
   | resolved
   | submitted (inst id : Nat)
+  /-- the task's value has reached the coroutine, `_pack` is on the process pool -/
+  | responding (o : Outcome)
   | done
   deriving DecidableEq, Repr
 
@@ -149,6 +171,7 @@ inductive Step where
   | take (inst w : Nat)
   | finish (inst w : Nat)
   | deliver (inst : Nat)
+  | respond (c : Nat)
   deriving DecidableEq, Repr
 
 /-- caller `c` is answered with `o` (the coroutine of `Engine.apply` completes) -/
@@ -210,8 +233,18 @@ def step (cfg : Config) (s : State) : Step → Option State
         match e.pending.lookup r.id with
         | none => some { s with execs := upd s.execs i { e with resultQ := q, stopped := true } }
         | some c =>
-          some { answer s c r.out with
-            execs := upd s.execs i { e with resultQ := q, pending := e.pending.erase (r.id, c) } }
+          match r.out with
+          | .error err =>
+            some { answer s c (.error err) with
+              execs := upd s.execs i { e with resultQ := q, pending := e.pending.erase (r.id, c) } }
+          | .value vi vp =>
+            some { s with
+              phase := upd s.phase c (.responding (.value vi vp))
+              execs := upd s.execs i { e with resultQ := q, pending := e.pending.erase (r.id, c) } }
+  | .respond c =>
+    match s.phase c with
+    | .responding o => some (answer s c (encode cfg c o))
+    | _ => none
 
 /-- A schedule is any list of steps; it runs iff every step is enabled when its turn comes. -/
 def run (cfg : Config) (s : State) : List Step → Option State
@@ -234,7 +267,7 @@ def candidates (cfg : Config) (insts : List Nat) : List Step :=
   cs.map .arrive ++ cs.map .desc ++ cs.map .decodeFail ++ cs.map .submit
     ++ insts.flatMap (fun i => (List.range cfg.workers).map (.take i))
     ++ insts.flatMap (fun i => (List.range cfg.workers).map (.finish i))
-    ++ insts.map .deliver
+    ++ insts.map .deliver ++ cs.map .respond
 
 def enabled (cfg : Config) (insts : List Nat) (s : State) : List Step :=
   (candidates cfg insts).filter (fun a => (step cfg s a).isSome)
